@@ -189,7 +189,15 @@ impl Hist {
                 Node::Op { args, kind, .. } => (args.iter().all(|a| self.handles[*a].is_some()), kind.is_alias()),
                 _ => (false, false),
             };
-            if !args_live {
+            // sum(0) only of an operand that is tracked right now (see program.rs: aliasing artefact)
+            let alias_of_untracked = is_alias && {
+                let a0 = match &self.st.p.nodes[idx] {
+                    Node::Op { args, .. } => args[0],
+                    _ => 0,
+                };
+                !self.handles[a0].as_ref().map(is_tracked).unwrap_or(false)
+            };
+            if !args_live || alias_of_untracked {
                 self.st.p.nodes.pop();
                 self.st.refv.pop();
                 self.st.shadow.pop();
